@@ -48,21 +48,60 @@ STRENGTHENED.update({
  "C18-r2m1": "missed at first (once-per-process initialisation was warmed by earlier sequential calls); a deep-structures-first concurrent target now runs as the first test of the process, and the concurrent phase precedes the sequential answers",
  "C18-r2m4": "missed at first (int elements only); concurrent readers over string-element containers (two instances at once) were added",
 })
-only = sys.argv[1:]
-for d in sorted(glob.glob('/verif/seeded/*/')):
+STRENGTHENED.update({
+ "C02-r3m3": "missed at first (no FromJSON in C02's histories); the key-value history engine gained a load op (documents with several keys of one comparator class), used by C01 and C02",
+ "C02-r3m4": "missed at first; see C02-r3m3 (load op: Min/Max are answered before and after a FromJSON)",
+ "C03-r3m3": "an aliasing defect (arraylist.New adopts the caller's slice): not visible to C03's sequence model, caught by C16 (slice passed to the constructor overwritten)",
+ "C03-r3m4": "missed at first (Contains probes on long lists had at most 4 arguments); long lists are now probed with 9..70 present values (with repeats), one absent value among them, and the whole contents",
+ "C06-r3m4": "missed at first (only fresh iterators were used); C06 now also walks ONE long-lived iterator, rewound by Begin/First/End/Last after every step, and C08 gained rewound-after-mutation targets for all 18 iterator types",
+ "C13-r3m4": "missed at first (operands were always freshly built); operands may now have a past: filled with 1..1100 other elements and emptied again by Clear or Remove, and left empty",
+ "C14-r3m2": "missed at first (Map results were compared modulo the comparator, because the surviving representative of a class was thought unspecified); Map is now also compared EXACTLY with a new container into which the mapped elements are inserted one by one (the property's own definition), and Select results exactly with the receiver's elements",
+ "C15-r3m2": "missed at first (int elements only); C15 gained float64 targets with the default constructors (NaN elements are not equal to themselves and must not survive Clear)",
+ "C17-r3m2": "missed at first (the reflective driver only used comparators returning -1/0/+1); it now also draws magnitude comparators (natural and reversed order, results 2..301); caught by the 60 s watchdog",
+})
+# seeds whose defect belongs to another property's clause: checks tried when the own check stays silent
+CROSS = {"C03-r3m3": ["C16"]}
+
+from concurrent.futures import ThreadPoolExecutor
+args = sys.argv[1:]
+jobs = 1
+if args and args[0] == '-j':
+    jobs = int(args[1]); args = args[2:]
+only = args
+os.environ['VERIF_SKIP_SEED_REGRESSIONS'] = '1'  # measure the generated search, not the replay tier harvested from these very seeds
+
+
+def one(d):
     name = os.path.basename(d.rstrip('/'))
-    if only and name not in only: continue
     mp = d + 'meta.json'
     meta = json.load(open(mp))
     pid = meta['property']
-    out = subprocess.run(['tools/try_mutant.sh', d + 'patch.diff', pid], capture_output=True, text=True, cwd='/verif').stdout
-    code = None; first = ''
-    lines = out.splitlines()
-    for i, l in enumerate(lines):
-        if l.startswith('== ') and 'exit ' in l: code = int(l.rsplit('exit ', 1)[1])
-        if 'VIOLATION' in l and not first and i + 1 < len(lines): first = lines[i + 1].strip()[:300]
-    meta['ran'] = [{"cmd": "tools/try_mutant.sh seeded/%s/patch.diff %s (quick tier, VERIF_SEED=1, scratch worktree via VERIF_REPO)" % (name, pid), "exit": code, "first_violation": first}]
-    meta['caught_by'] = [pid] if code == 1 else []
+    ran, caught, first1 = [], [], ''
+    for cid in [pid] + CROSS.get(name, []):
+        out = subprocess.run(['tools/try_mutant.sh', d + 'patch.diff', cid], capture_output=True, text=True, cwd='/verif').stdout
+        code = None; first = ''
+        lines = out.splitlines()
+        for i, l in enumerate(lines):
+            if l.startswith('== ') and 'exit ' in l: code = int(l.rsplit('exit ', 1)[1])
+            if 'VIOLATION' in l and not first and i + 1 < len(lines): first = lines[i + 1].strip()[:300]
+        ran.append({"cmd": "VERIF_SKIP_SEED_REGRESSIONS=1 tools/try_mutant.sh seeded/%s/patch.diff %s (quick tier, VERIF_SEED=1, scratch worktree via VERIF_REPO)" % (name, cid), "exit": code, "first_violation": first})
+        first1 = first1 or first
+        if code == 1:
+            caught.append(cid)
+            break
+    meta['ran'] = ran
+    meta['caught_by'] = caught
     if name in STRENGTHENED: meta['history'] = STRENGTHENED[name]
     json.dump(meta, open(mp, 'w'), indent=1)
-    print(name, 'exit', code, first[:120])
+    return '%s caught_by=%s %s' % (name, ','.join(caught) or 'NONE', first1[:120])
+
+
+dirs = [d for d in sorted(glob.glob('/verif/seeded/*/')) if not only or os.path.basename(d.rstrip('/')) in only]
+# C17 crash replays share file names per shard: those seeds run one at a time
+par = [d for d in dirs if not os.path.basename(d.rstrip('/')).startswith('C17-')]
+seq = [d for d in dirs if os.path.basename(d.rstrip('/')).startswith('C17-')]
+with ThreadPoolExecutor(jobs) as ex:
+    for line in ex.map(one, par):
+        print(line, flush=True)
+for d in seq:
+    print(one(d), flush=True)
